@@ -590,10 +590,10 @@ class PrenexNormalizer(DagWalker):
         quantifiers, matrix = self.walk(formula)
         res = matrix
         for Q, qvars in quantifiers:
-            # The variables of a block are a set: they are listed in
-            # an order that does not depend on the history of the
-            # environment
-            res = Q(sorted(qvars, key=lambda v: v.symbol_name()), res)
+            # The variables of a block are listed in the order of the
+            # binders they come from (renamed ones in place): the order
+            # does not depend on the history of the environment
+            res = Q(qvars, res)
         return res
 
     def _invert_quantifier(self, Q: Callable) -> Callable:
@@ -633,7 +633,7 @@ class PrenexNormalizer(DagWalker):
             # For each quantifier in the alternation
             for Q, q_vars in sub_quantifiers:
                 # These are the variables that need alpha-renaming
-                needs_rename = q_vars & reserved
+                needs_rename = [v for v in q_vars if v in reserved]
                 if len(needs_rename) > 0:
                     # we need alpha-renaming: prepare the substitution map
                     sub = dict((v,self.mgr.FreshSymbol(v.symbol_type()))
@@ -641,14 +641,13 @@ class PrenexNormalizer(DagWalker):
                     sub_matrix = sub_matrix.substitute(sub)
 
                     # The new variables for this quantifiers will be
-                    # its old variables, minus the one needing
-                    # renaming, that are renamed.
-                    new_q_vars = (q_vars - needs_rename)
-                    new_q_vars |= set(sub[x] for x in needs_rename)
+                    # its old variables, with the ones needing
+                    # renaming replaced (in place) by their new name.
+                    new_q_vars = [sub.get(v, v) for v in q_vars]
                 else:
                     # No need to alpha-rename this quantifier, we keep
-                    # as it is the set of variables.
-                    new_q_vars = set(q_vars)
+                    # as it is the list of variables.
+                    new_q_vars = list(q_vars)
 
                 # Store this quantifier in the final result
                 quantifiers.append((Q, new_q_vars))
@@ -657,7 +656,7 @@ class PrenexNormalizer(DagWalker):
                 # reserved, if another quantifier uses any of them it
                 # will need alpha-renaming even if this quantifier was
                 # OK.
-                reserved |= new_q_vars
+                reserved |= set(new_q_vars)
 
             # Store the (possibly rewritten) sub_matrix
             matrix.append(sub_matrix)
@@ -719,7 +718,7 @@ class PrenexNormalizer(DagWalker):
         #pylint: disable=unused-argument
         quantifiers, matrix = args[0]
         qvars = set(v for _, qv in quantifiers for v in qv)
-        nq = set(formula.quantifier_vars()) - qvars
+        nq = [v for v in formula.quantifier_vars() if v not in qvars]
 
         # If nq is empty, it means that inner quantifiers shadow all
         # the variables of this quantifier. Hence this quantifier can
